@@ -52,6 +52,8 @@ def plan(tier: str, seed: int) -> t.List[dict]:
         specs.append({"name": f"l1l2-{i}", "kind": "l1l2", "n": n12 // (8 if q else 16)})
     for i in range(8 if q else 16):
         specs.append({"name": f"rand-{i}", "kind": "rand", "n": (5000 if q else 100000) // (8 if q else 16)})
+    for i in range(4 if q else 16):
+        specs.append({"name": f"seedcache-{i}", "kind": "seedcache", "n": 6 if q else 40})
     return specs
 
 
@@ -63,6 +65,8 @@ def finalize(agg, tier):
         r.append("no key identifier compared")
     if agg.counter("realclock_cases") == 0:
         r.append("real clock case missing")
+    if agg.counter("seedcache_identifiers_compared") == 0:
+        r.append("the 'previously retrieved seed keys' path was never exercised")
     return r
 
 
@@ -113,8 +117,74 @@ def check_instant(rec: Recorder, ft: int, phase: int, near: bool, fresh: bool = 
     rec.case((ft, phase), nontrivial=near)
 
 
+def run_seedcache(spec: dict, rec: Recorder) -> None:
+    """The key comes from seed keys previously retrieved from a DC (no root key loaded): an unprotect
+    through the in-memory reference DC fills the cache with the envelope for (L0, a, b); protect calls
+    naming that root key at instants whose interval is covered must then name exactly that interval
+    (taken from the cache: the network guard is armed, any DC contact would be recorded)."""
+    import dpapi_ng
+    from vf.props import online
+    from vf.refdc import frontends as fe
+    from vf.refdc.core import DCConfig, DCCore
+
+    rng = common.rng_for(ID, spec)
+    for rnd in range(spec["n"]):
+        rkid = uuid.UUID(int=rng.getrandbits(128))
+        rk = online.root_key(rng, rng.choice(common.HASHES), "DH")
+        l0 = rng.randrange(340, 700)
+        a, b = rng.randrange(1, 32), rng.randrange(0, 32)
+        cfg = DCConfig({rkid: rk}, rkid, now=(l0, 31, 31), security="scripted")
+        cfg.l2_key_absent_at_31 = rng.random() < 0.5
+        core = DCCore(cfg)
+        cachex = dpapi_ng.KeyCache()
+        sid = online.gen_sid(rng)
+        blob0 = online.ref_blob(rng, rkid, rk, sid, (l0, a, b), "nonce", b"seed")
+        with fe.MemoryDC(core).installed():
+            if dpapi_ng.ncrypt_unprotect_secret(blob0, server="dc.c09.test", username="u", password="p", auth_protocol="ntlm", cache=cachex) != b"seed":
+                rec.inconclusive_because("seeding unprotect through the reference DC failed")
+                return
+        # instants covered by the cached envelope: positions <= (a, b) within l0
+        bounds = []
+        for _ in range(6):
+            l1 = rng.randrange(0, a + 1)
+            l2 = rng.randrange(0, 32) if l1 < a else rng.randrange(0, b + 1)
+            bounds.append(((l0 * 1024 + l1 * 32 + l2) * B, (l1, l2)))
+        bounds.append(((l0 * 1024 + a * 32 + b) * B, (a, b)))
+        bounds.append((l0 * 1024 * B, (0, 0)))
+        for bnd, _pos in bounds:
+            for off in (-3, -1, 0, 1, 7, B - 1, B // 2):
+                ft = bnd + off
+                exp = expected(ft)
+                covered = exp[0] == l0 and (exp[1] < a or (exp[1] == a and exp[2] <= b))
+                wit = {"filetime": str(ft), "seed_position": [l0, a, b], "kind": "seedcache", "shard": spec["name"], "round": rnd}
+                try:
+                    with mon.CLOCK.at_ns(mon.filetime_to_ns(ft, rng.randrange(100))), mon.NET.guard():
+                        out = dpapi_ng.ncrypt_protect_secret(b"c09-seed", sid, root_key_identifier=rkid, cache=cachex)
+                except mon.NetworkAttempt:
+                    rec.count("seedcache_not_covered_went_to_network")
+                    if covered:
+                        rec.violation("covered-interval-not-served-from-cache", f"t={ft} lies in {exp}, covered by the cached seed keys {(l0, a, b)}, but protect tried to contact a DC", wit)
+                    continue
+                except Exception as e:
+                    rec.violation("protect-raised", f"seed-cache path, t={ft}: {type(e).__name__}: {e}", wit)
+                    continue
+                kid = gkdi.dec_key_identifier(cms.parse(out)["key_identifier"])
+                got = (kid["l0"], kid["l1"], kid["l2"])
+                rec.count("seedcache_identifiers_compared")
+                if got != exp:
+                    rec.violation("interval-mismatch", f"seed-cache path: t={ft}: blob names {got}, interval containing t is {exp}", wit)
+                elif cms.reference_unprotect(out, {rkid: rk}) != b"c09-seed":
+                    rec.violation("seedcache-blob-undecryptable", f"seed-cache path: t={ft}: blob names {got} but the reference implementation cannot decrypt it", wit)
+                rec.case(("seedcache", ft), nontrivial=True)
+    rec.sample({"kind": "seed keys from a previous DC reply", "seed_position": [l0, a, b], "example_filetime": ft})
+
+
 def run_shard(spec: dict, rec: Recorder) -> None:
     if not common.calibrate(rec, "gkdi", "der"):
+        return
+    if spec["kind"] == "seedcache":
+        if common.calibrate(rec, "crypto", "cms", "rpc", "epm", "sd"):
+            run_seedcache(spec, rec)
         return
     rng = common.rng_for(ID, spec)
     kind = spec["kind"]
@@ -163,4 +233,8 @@ def run_shard(spec: dict, rec: Recorder) -> None:
 
 def replay(body: dict, rec: Recorder) -> None:
     w = body["witness"]
+    if w.get("kind") == "seedcache":
+        run_shard({"name": w["shard"], "seed": body["seed"], "tier": body["tier"], "kind": "seedcache", "n": 6 if body["tier"] == "quick" else 40}, rec)
+        rec.violations[:] = [v for v in rec.violations if v["mechanism"] == body["mechanism"]][:3]
+        return
     check_instant(rec, int(w["filetime"]), int(w.get("phase_ns", 0)), True, bool(w.get("fresh_cache")))
